@@ -149,7 +149,7 @@ def run(scn, ch):
         horizon = 2.5 + 4 * exp_g + (1.5 if c == 'max_age' else 0)
         world.run(until=lambda w: False, horizon=horizon, menu=win.menu, tie_cost=0)
         win.open = False
-        _oracle(world, scn, res, exp_sig, exp_g, t_cause)
+        _oracle(world, scn, res, exp_sig, exp_g, t_cause, CLOCK.now)
         res.outcome = digest([[(round(t - t_cause, 3), pid - PID_BASE, s) for (t, pid, s, via) in world.kernel.signal_log],
                               [(p.pid - PID_BASE, p.state) for p in world.kernel.spawn_log]])
         return finish(world, res)
@@ -157,7 +157,7 @@ def run(scn, ch):
         return finish(world, res, aborted=str(e))
 
 
-def _oracle(world, scn, res, exp_sig, exp_g, t_cause):
+def _oracle(world, scn, res, exp_sig, exp_g, t_cause, t_end):
     k = world.kernel
     KILL = int(signal.SIGKILL)
     site = 'watcher.kill_process'
@@ -189,7 +189,8 @@ def _oracle(world, scn, res, exp_sig, exp_g, t_cause):
                       % (p.pid - PID_BASE, died - t0, exp_g, late[0] - t0),
                       where='watcher.kill_process/escalation-without-liveness-check')
         alive_at_g = died is None or died > t0 + exp_g + TOL
-        if alive_at_g:
+        # only episodes whose whole window lies inside the run are judged for the escalation
+        if alive_at_g and t0 + exp_g + STEP + TOL < t_end:
             # still running when the grace period ended: SIGKILL within one polling step
             ok = any(tk <= t0 + exp_g + STEP + TOL for tk, _ in kills)
             # ... unless it died by itself inside that last step (then no SIGKILL is owed)
